@@ -9,7 +9,8 @@ obj = `kind|name|parent|privacy|contents|hasdoc|docsource|xrefs|annrefs|bases|ba
   lists `-` or comma separated; bases / sigrefs items `x` (None) or a number; basenames items `u:…`.
 
 Answer: `ok wf=<0|1> | <section> <item>… | …`, items sorted and duplicate-free.
-file = `I` | `S:<stem>` | `P:<u:fullName>`; href = `<file or ->#<u:fragment or ->`. -/
+file = `I` | `S:<stem>` | `P:<u:fullName>`; href = `<file or ->#<u:fragment or ->`.
+Row sections list hyperlinks (and member details); `roottexts` the root rows written without a link. -/
 namespace Output
 
 def parseKind : String → Option Kind
@@ -120,7 +121,7 @@ def showEmit (s : Sys) (e : Emit) : String :=
 def answer (s : Sys) : String :=
   let es := emits s
   let sec (name : String) (items : List String) : String := name ++ " " ++ canon items
-  let rows := allRows.map fun r => sec (rowName r) ((es.filter fun e => e.row = r).map (showEmit s))
+  let rows := allRows.map fun r => sec (rowName r) ((es.filter fun e => e.row = r && e.linked).map (showEmit s))
   " | ".intercalate (
     [ "ok wf=" ++ showBool (wf s),
       sec "files" ((written s).map showFile),
@@ -130,6 +131,9 @@ def answer (s : Sys) : String :=
       sec "search" ((searchDocs s).map fun o => Proto.encodeStr (fullName s o)),
       sec "inventory" ((inventory s).map fun o => Proto.encodeStr (fullName s o) ++ ">" ++ showUrl (url s o)),
       sec "inhierarchy" ((inHierarchy s).map fun (f, n) => showFile f ++ ">" ++ showFile (.summary .classIndex) ++ "#" ++ Proto.encodeStr n),
+      sec "roottexts" ((es.filter fun e => !e.linked).map fun e =>
+          showFile e.page ++ ">" ++ Proto.encodeStr (s.ob e.target).name ++ ">" ++
+            (match e.marked with | none => "-" | some b => showBool b)),
       sec "dead" ((es.filter fun e => !resolves s e).map fun e => rowName e.row ++ ":" ++ showEmit s e),
       sec "hiddenlinks" ((es.filter fun e => !visible s e.target).map fun e => rowName e.row ++ ":" ++ showEmit s e),
       sec "unmarked" ((es.filter fun e => e.row.listing && (s.ob e.target).privacy == .priv && e.marked != some true).map
